@@ -114,8 +114,9 @@ class RelayModules(object):
       self.pipeline = carbon.pipeline
       self.configured = key
     import math
-    hard = self.client.SEND_QUEUE_HARD_MAX
-    low = self.client.SEND_QUEUE_LOW_WATERMARK
+    # the limits the documentation defines (NOT read back from the code under test)
+    hard = cfg['maxq'] * cfg.get('hard_pct', 1.25) if cfg.get('flow', True) else cfg['maxq']
+    low = cfg['maxq'] * cfg.get('low_pct', 0.8)
     self.consts = dict(ND=nd, NR=cfg.get('nr', 1), MaxQ=cfg['maxq'], HardC=int(math.ceil(hard)),
                        LowC=int(math.ceil(low)), MaxPerMsg=cfg['mpm'],
                        Flow='TRUE' if cfg.get('flow', True) else 'FALSE',
